@@ -109,6 +109,16 @@ def main(tier):
     fam.rejected = rejected
     # sub-routine call wrappers go through compile_c_stmt
     wprogs, _ = fam.compile([dict(name=n, text=t, vkey=n) for n, t in SUB_WRAPPERS])
+    # what the bundled routines mean (reference models, verif/submodels.py) and circular-buffer boundary states for fcirc_add
+    from .. import submodels
+
+    refs = submodels.wrapper_refs()
+    for p in wprogs:
+        if p.name in refs:
+            p.extra["ref_fn"] = refs[p.name]
+    for p in progs + wprogs:
+        if "fcirc_add" in p.src:
+            p.extra["states_fn"] = submodels.circ_states
     nst = 64 if tier == "quick" else 256
     allp = progs + wprogs
     out = fam.differential(allp, nst, clang=(tier == "thorough"), nontrivial=lambda p, r: r.changed > 0, key_of=lambda p: p.name, deepen=True)
@@ -121,6 +131,7 @@ def main(tier):
         "samples": fam.samples or [{"note": "none"}],
         "instructions_compiled": len(names), "instructions_accepted": accepted, "parts_compared": len(progs), "noped_parts_skipped": noped,
         "subroutine_wrappers": len(wprogs), "states_per_part": nst,
+        "routine_reference_model_executions": sum(r.refchecked for p, r, _ in out if p.name.startswith("sub:")),
         "c_source_redeclaration_rewrites": fam.info.get("c_rewritten", []),
     })
     run.assumptions = ["trusted architectural / plugin-macro model of DESIGN section 3 (banks, READ_REG/WRITE_REG, memory, jump, USR)",
